@@ -191,6 +191,7 @@ func vfRunConnScenario(cfg vfConnScenarioCfg) (events []map[string]interface{}, 
 	}
 	dconns := d.DriverConns[desc.Addr]
 	mc := dconns[len(dconns)-1]
+	wireBase := len(mc.Written())
 	connID := tr.ObjID(conn)
 	capacity := conn.streams.NumStreams - 1
 	tr.Emit("env_conn", "conn", connID, "cap", capacity, "proto", cfg.Proto, "kind", cfg.Kind)
@@ -369,7 +370,51 @@ func vfRunConnScenario(cfg vfConnScenarioCfg) (events []map[string]interface{}, 
 			tr.Emit("closed_ret", "conn", connID)
 		}
 	}
-	tr.Emit("written", "conn", connID, "n", len(mc.Written()))
+	// ---- C07: the byte stream after the handshake, and the frame an independent encoder
+	// expects for every request that got a stream id
+	wire := mc.Written()[wireBase:]
+	wints := make([]int, len(wire))
+	for i, b := range wire {
+		wints[i] = int(b)
+	}
+	tr.Emit("wire", "conn", connID, "bytes", wints, "closed", vfB2I(conn.Closed()), "proto", cfg.Proto)
+	fates := map[int]string{}
+	streams := map[int]int{}
+	wok := map[int]int{}
+	for _, e := range tr.Events() {
+		switch e["ev"] {
+		case "call":
+			fates[e["req"].(int)] = e["fate"].(string)
+		case "x_stream":
+			if e["conn"].(int) == connID && e["req"].(int) > 0 {
+				streams[e["req"].(int)] = e["stream"].(int)
+				wok[e["req"].(int)] = -1
+			}
+		case "x_wend":
+			if e["conn"].(int) == connID && e["req"].(int) > 0 {
+				if e["err"].(string) == "none" {
+					wok[e["req"].(int)] = 1
+				} else {
+					wok[e["req"].(int)] = 0
+				}
+			}
+		}
+	}
+	for req, st := range streams {
+		tok := fmt.Sprintf("tok_%d_%s", req, fates[req])
+		body := (&vfW{}).LongString(tok).Short(int(One)).Byte(0).b
+		var fr []byte
+		if cfg.Proto > 2 {
+			fr = append([]byte{byte(cfg.Proto), 0, byte(st >> 8), byte(st), vfOpQuery, 0, 0, 0, byte(len(body))}, body...)
+		} else {
+			fr = append([]byte{byte(cfg.Proto), 0, byte(st), vfOpQuery, 0, 0, 0, byte(len(body))}, body...)
+		}
+		fints := make([]int, len(fr))
+		for i, b := range fr {
+			fints[i] = int(b)
+		}
+		tr.Emit("frame_exp", "conn", connID, "req", req, "bytes", fints, "wok", wok[req])
+	}
 	sc.gates.ReleaseAll()
 	return tr.Events(), ""
 }
